@@ -473,9 +473,10 @@ nni_url_parse_inline_inner(nng_url *url, const char *raw)
 		url->u_hostname++;
 		p++;
 		while (*p != ']') {
-			if (*p++ == '\0') {
+			if ((*p == '\0') || (*p == '[')) {
 				return (NNG_EINVAL);
 			}
+			p++;
 		}
 		*p++ = '\0';
 		if ((*p != ':') && (*p != '\0')) {
